@@ -4,4 +4,5 @@ pub mod batch;
 pub mod model;
 pub mod single;
 pub mod stream;
+pub mod subs;
 pub mod world;
